@@ -29,14 +29,17 @@ def _kv(pid, title, text, ref):
 _kv("C01", "Latest-state reads match the sequential model",
     "Every Get and full scan of the latest state, after every write step of seeded random and TLC-generated histories "
     "(all write kinds, batches, ingests, excises, forced flushes/compactions) under a matrix of DB configurations, is "
-    "validated by TLC against the sequential model KV.tla; the model's own invariants are checked exhaustively in a small scope.",
-    "DESIGN 6/C01")
+    "validated by TLC against the sequential model KV.tla; the model's own invariants are checked exhaustively in a small scope; "
+    "EVERY call history of length 3 (thorough: 4) over a one-prefix universe is enumerated by TLC and replayed on the real DB; external "
+    "ingestion (bounds cutting the file, synthetic suffix) is included as ordinary ingests.",
+    "DESIGN 6/C01, 0.3a")
 _kv("C02", "Iterator positioning matches the model",
     "Every iterator call (First/Last/SeekGE/SeekLT/SeekPrefixGE/Next/Prev/NextPrefix, SetBounds, SetOptions) of random and "
     "TLC-generated op sequences is validated by TLC against KV.tla's cursor semantics across LSM shapes; the 'never outside "
     "bounds / prefix' clauses are model invariants checked exhaustively.", "DESIGN 6/C02")
 _kv("C03", "Snapshots are stable", "Reads through snapshots (Get, scans, snapshot iterators) re-issued after every later write, "
-    "flush, compaction, ingest and format upgrade are validated by TLC against the pinned copy of the model state.", "DESIGN 6/C03")
+    "flush, compaction, ingest and format upgrade are validated by TLC against the pinned copy of the model state; every call history "
+    "of length 3 (thorough: 4) with snapshots over a one-prefix universe is enumerated by TLC and replayed.", "DESIGN 6/C03, 0.3a")
 _kv("C04", "Iterators and clones keep a fixed view", "Long-lived iterators, clones and indexed-batch iterators are re-walked after "
     "every later write/flush/compaction/ingest/excise/batch mutation; TLC validates every position against the view pinned at "
     "creation (or at the last refresh).", "DESIGN 6/C04")
@@ -46,17 +49,19 @@ _kv("C08", "Range keys: visible set and defragmented bounds", "HasPointAndRange/
     "the defragmented spans of full scans are validated by TLC against the model's maximal clipped spans, across LSM shapes that "
     "fragment the same logical range keys differently.", "DESIGN 6/C08")
 _kv("C09", "Range-key masking", "Iterator results under RangeKeyMasking (with and without the block-property filter mask) are each "
-    "validated by TLC against the rule mask <= r < p.", "DESIGN 6/C09")
+    "validated by TLC against the rule mask <= r < p, including points of externally ingested tables read with a synthetic suffix.", "DESIGN 6/C09, 0.3a")
 _kv("C14", "Background maintenance never changes reads", "Latest state, every open snapshot/EFOS and every open iterator are re-read "
-    "after each forced flush/compaction/format upgrade and validated by TLC against the model (Maintenance is a stuttering step).",
-    "DESIGN 6/C14")
+    "after each forced flush/compaction/format upgrade and validated by TLC against the model (Maintenance is a stuttering step); "
+    "every call history of length 3 (thorough: 4) with flush/compact steps over a one-prefix universe is enumerated by TLC and replayed.",
+    "DESIGN 6/C14, 0.3a")
 _kv("C36", "Ingest and excise behave like their logical equivalents", "Ingest == one batch, IngestAndExcise == excise then batch, Excise "
     "removes the span; reads after each step and open iterators across excises are validated by TLC against the model.", "DESIGN 6/C36")
 _kv("C37", "EFOS keep their protected view", "Reads through eventually-file-only snapshots inside their protected ranges, before and after "
     "the forced file-only transition and across overlapping excises, are validated by TLC against the pinned model state.", "DESIGN 6/C37")
 _kv("C38", "Checkpoints open to a consistent, complete state", "Checkpoints (with/without WithFlushedWAL, with restricted spans) taken at random "
     "history positions are opened with the real Open and fully read; TLC requires the state to be a prefix of the history containing every "
-    "acknowledged entry (exactly the visible state with a flushed WAL; equality inside the spans when restricted).", "DESIGN 6/C38")
+    "acknowledged entry (exactly the visible state with a flushed WAL; equality inside the spans when restricted); writes issued from inside "
+    "the Checkpoint call (after it captured its view) must leave it a prefix between the call's begin and return. One known finding (KNOWN_FINDINGS).", "DESIGN 6/C38, 0.3a")
 _kv("C44", "Separated values read back identically", "The C01/C03/C04 workloads under value-separation policies whose thresholds straddle the driver's "
     "value sizes (blob rewrite enabled, ingests, snapshots, long-lived iterators): every value is decoded byte for byte by the driver and every read "
     "validated by TLC; the evidence reports how many blob files were live. Crash behaviour of separated values is exercised by the crash engine's "
